@@ -221,6 +221,13 @@ def gen(rng, tier):
     for n in range(8185, 8194) if quick else list(range(8180, 8200)) + list(range(16376, 16390)):
         for tail in ([0x22], [0x5C], [0x01]):
             cases.append(ev("info", [(K, "s:" + utok([0x61] * n + tail)), ([ord("z")], "b:1")]))
+    # events with a given time: the epoch itself, the first second after it, digit boundaries of the nanosecond count,
+    # 2^63 / 2^64 nanoseconds, the year 9999
+    for (sec, ns) in ((0, 0), (0, 1), (0, 999999999), (0, 100000000), (0, 99999999), (1, 0), (1, 1), (9, 999999999), (10, 0),
+                      (999999999, 999999999), (9223372036, 854775807), (9223372036, 854775808), (18446744073, 709551615),
+                      (18446744073, 709551616), (253402300799, 999999999), (1700000000, 5), (1700000000, 50)):
+        cases.append("evt %d %d info 0" % (sec, ns))
+        cases.append("evt %d %d error 1 %s %s" % (sec, ns, utok(K), "s:" + utok([0x61, 0x22])))
     # the same events as the file log writer writes them (LogFileWriter with max_write_bytes at its 64 KiB minimum):
     # small ones, and lines longer than max_write_bytes (they must come out whole)
     def fev(level, tags):
@@ -243,6 +250,8 @@ def classify(case, model):
         return "chars:plane%d" % (lo >> 16)
     if t[0] == "resp":
         return "resp:" + t[1]
+    if t[0] == "evt":
+        return "evt:given-time"
     k = int(t[2])
     kinds = set(x.split(":")[0] for x in t[4::2])
     kinds = set("int" if (x[0] in "iu" and x[1:].isdigit()) or x == "usize" else x for x in kinds)
